@@ -562,12 +562,13 @@ pub fn gen_op(rng: &mut Rng, ex: &mut Exec, g: &Gen, allow_import: bool) -> Op {
                 1 => -1,
                 _ => 0,
             };
-            Op::CSet {
-                c,
-                key,
-                value: gen_value(rng, uid),
-                skew,
-            }
+            // every fifth cset of an existing key repeats the stored value: only the version changes, and
+            // that change has to be persisted like any other
+            let value = match ex.m.store.map.get(&key) {
+                Some(e) if rng.chance(1, 5) => e.value.clone(),
+                _ => gen_value(rng, uid),
+            };
+            Op::CSet { c, key, value, skew }
         }
         46..=55 => Op::Delete {
             c,
@@ -649,7 +650,17 @@ pub fn gen_op(rng: &mut Rng, ex: &mut Exec, g: &Gen, allow_import: bool) -> Op {
             }
         }
         96..=97 if allow_import && g.imports => {
-            let n = rng.range(1, 4);
+            // now and then a burst: hundreds of entries at once queue up behind the background writer
+            let n = if rng.chance(1, 8) { rng.range(260, 420) } else { rng.range(1, 4) };
+            if n > 4 {
+                let entries = (0..n)
+                    .map(|i| {
+                        let version = if i % 3 == 0 { 0 } else { (i % 7 + 1) as u64 };
+                        (format!("burst{}/{uid}/{i}", i % 4), Entry { value: json!(format!("imp{uid}-{i}")), version })
+                    })
+                    .collect();
+                return Op::Import { entries };
+            }
             let mut seen = BTreeSet::new();
             let mut entries = vec![];
             for i in 0..n {
@@ -2215,7 +2226,7 @@ pub fn run(ctx: &Ctx) -> Evidence {
         }
     }
     // ---- B: random long histories with several stops each
-    let target_cuts = ctx.tier.pick(400, 4200);
+    let target_cuts = ctx.tier.pick(300, 4200);
     let mut cuts = 0;
     let mut i = 0u64;
     let mut prng = base_rng.fork(7);
